@@ -204,3 +204,18 @@ def raises_when(Sf: Sym, *srcs: str, exc: str = "") -> bool:
             if all(any(is_(x, s_) is not None for x in conj) for s_ in srcs):
                 return True
     return False
+
+
+def push_ifexp(t: Any, _depth: int = 0) -> Any:
+    """Distribute sums over conditionals, `a + (x if c else y)` -> `(a + x) if c else (a + y)`, bottom-up (at most
+    three conditionals per sum).  Two spellings of one value compare equal after this."""
+    if not isinstance(t, tuple) or not t or _depth > 6:
+        return t
+    t = tuple(push_ifexp(x, _depth + 1) if isinstance(x, tuple) else x for x in t)
+    if t[0] == "add":
+        conds = [x for x in t[1:] if isinstance(x, tuple) and x and x[0] == "ifexp"]
+        if 1 <= len(conds) <= 3:
+            c = conds[0]
+            rest = [x for x in t[1:] if x is not c]
+            return sym.mk_ifexp(c[1], push_ifexp(sym.mk_add(rest + [c[2]]), _depth + 1), push_ifexp(sym.mk_add(rest + [c[3]]), _depth + 1))
+    return t
